@@ -287,10 +287,9 @@ PROPS = {
                 "probability 20%): PARSE (implementation tree incl. every range, offset and diagnostic vs the Lean parser model), "
                 "SPECPARSE (implementation tree vs the independently written grammar derivation Spec/Grammar.lean with ranges placed "
                 "by the rule 'own tokens plus leading comments'). " + TEXT_RULE,
-        "unproved_parts": ["PROVED for expressions, type expressions and statements: expression_conforms, type_expression_conforms, statement_conforms "
-                           "(model = specification on everything derivable, any token array / position / state). parse_conforms for declarations and the program "
-                           "(Parse.parse toks = relativize (Grammar.parseAbs toks) for every valid token sequence) is compared on every run "
-                           "(SPECPARSE: implementation = specification, PARSE: implementation = model), not yet a theorem"],
+        "unproved_parts": ["none for the model: parse_conforms (Parse.parse toks = Grammar.parse toks whenever the specification derives a program, any token "
+                           "sequence ending in a non-comment token) is a theorem; the tie of the model to parser.rs is the PARSE correspondence, "
+                           "SPECPARSE compares implementation and specification directly"],
     },
     "C05": {
         "rule": "G_prog programs with >= 2 global declarations; one declaration k, one non-keyword token of it is deleted / replaced / "
